@@ -337,6 +337,17 @@ func init() {
 		}
 		return ptrTok{p: p}
 	}
+	externals[symPkg+".InnerPtr"] = func(fr *frame, args []value) value {
+		p, ok := args[0].(iface).v.(*value)
+		if !ok || p == nil {
+			return unsafe.Pointer(nil)
+		}
+		st, ok := (*p).(structure)
+		if !ok || len(st) == 0 {
+			return unsafe.Pointer(p)
+		}
+		return unsafe.Pointer(&st[0])
+	}
 	externals[symPkg+".U32sAt"] = func(fr *frame, args []value) value {
 		n := int(asInt64(args[1]))
 		u, ok := args[0].(ptrTok)
